@@ -204,6 +204,49 @@ func (s gsection) render(b *strings.Builder, r *common.Rng) {
 	b.WriteString("%endsection\n")
 }
 
+// genRelaySection: a dataflow-shaped program — every input is read, combined and written to the
+// outputs in a loop — so that a wrongly wired bond changes what comes out of the machine.
+func genRelaySection(r *common.Rng, name string, rsize int, secMode string, source bool) gsection {
+	s := gsection{name: name, iomode: secMode}
+	s.nIn = r.Intn(3)
+	if source && r.Bool() {
+		s.nIn = 0
+	}
+	s.nOut = 1 + r.Intn(2)
+	s.maxReg = s.nIn + 1
+	s.entryLabel = pick(r, []string{"_start", "top", "loop"})
+	s.entryFirst = true
+	ls := []gline{{entry: true, text: "entry " + s.entryLabel}}
+	first := true
+	add := func(t string) {
+		g := gline{text: t}
+		if first {
+			g.labels = []string{s.entryLabel}
+			first = false
+		}
+		ls = append(ls, g)
+	}
+	if s.nIn == 0 {
+		add("rset r0, " + genLiteral(r, rsize))
+		add("inc r1")
+	}
+	for i := 0; i < s.nIn; i++ {
+		add(fmt.Sprintf("mov r%d, i%d", i, i))
+	}
+	if s.nIn == 2 && r.Bool() {
+		add("add r0, r1")
+	}
+	if r.Bool() {
+		add(fmt.Sprintf("inc r%d", s.maxReg))
+	}
+	for o := 0; o < s.nOut; o++ {
+		add(fmt.Sprintf("mov o%d, r%d", o, r.Intn(s.maxReg+1)))
+	}
+	add(pick(r, []string{"j ", "jmp "}) + s.entryLabel)
+	s.lines = ls
+	return s
+}
+
 type gio struct {
 	name, cp, typ string
 	index          int
@@ -213,14 +256,12 @@ type gio struct {
 func GenCase(r *common.Rng) Case {
 	rsize := []int{8, 16, 32}[r.Intn(3)]
 	gmode := pick(r, []string{"", "async", "sync", "sync"})
-	ncp := 1
-	if r.Chance(1, 3) {
-		ncp = 2
-	}
+	ncp := []int{1, 1, 1, 2, 2, 3}[r.Intn(6)]
 	nsec := ncp
-	if ncp == 2 && r.Chance(1, 4) {
-		nsec = 1 // both processors run the same section
+	if ncp >= 2 && r.Chance(1, 5) {
+		nsec = ncp - 1 // the last two processors run the same section
 	}
+	relay := ncp >= 2 && r.Chance(1, 2) // dataflow-shaped programs: what arrives on the inputs reaches the outputs
 	secs := []gsection{}
 	for k := 0; k < nsec; k++ {
 		sm := ""
@@ -231,37 +272,55 @@ func GenCase(r *common.Rng) Case {
 		if eff == "" {
 			eff = gmode
 		}
-		secs = append(secs, genSection(r, pick(r, []string{"prog", "code", "main", "sec"})+strconv.Itoa(k), rsize, eff, sm))
+		name := pick(r, []string{"prog", "code", "main", "sec"}) + strconv.Itoa(k)
+		if relay && eff != "" {
+			secs = append(secs, genRelaySection(r, name, rsize, sm, k == 0))
+		} else {
+			secs = append(secs, genSection(r, name, rsize, eff, sm))
+		}
 	}
-	cpNames := []string{"cpu", "worker"}
-	cpSec := []int{0, nsec - 1}
+	cpNames := []string{"cpu", "worker", "sink"}
+	cpSec := []int{0, 1, 2}
+	for c := range cpSec {
+		if cpSec[c] >= nsec {
+			cpSec[c] = nsec - 1
+		}
+	}
 	ios := []gio{}
 	ext := map[string]int{"input": 0, "output": 0}
 	link := 0
+	pair := func(nm string, a, b gio) {
+		a.name, b.name = nm, nm
+		if r.Bool() { // either end may be written first
+			a, b = b, a
+		}
+		ios = append(ios, a, b)
+	}
 	for c := 0; c < ncp; c++ {
 		s := secs[cpSec[c]]
 		for i := 0; i < s.nIn; i++ {
-			if r.Chance(1, 6) {
-				continue // left unconnected
+			switch {
+			case r.Chance(1, 8):
+				// left unconnected
+			case ncp >= 2 && r.Chance(2, 3):
+				// driven by an output of another processor: any index (fan-in on this processor, fan-out on that one)
+				d := r.Intn(ncp)
+				if d == c {
+					d = (d + 1) % ncp
+				}
+				pair(fmt.Sprintf("lnk%d", link), gio{cp: cpNames[d], typ: "output", index: r.Intn(secs[cpSec[d]].nOut)},
+					gio{cp: cpNames[c], typ: "input", index: i})
+				link++
+			default:
+				pair(fmt.Sprintf("in%d_%d", c, i), gio{cp: "bm", typ: "input", index: ext["input"]}, gio{cp: cpNames[c], typ: "input", index: i})
+				ext["input"]++
 			}
-			nm := fmt.Sprintf("in%d_%d", c, i)
-			ios = append(ios, gio{nm, cpNames[c], "input", i}, gio{nm, "bm", "input", ext["input"]})
-			ext["input"]++
 		}
 		for o := 0; o < s.nOut; o++ {
-			if c == 0 && ncp == 2 && secs[cpSec[1]].nIn > link && r.Chance(1, 2) {
-				// processor 0 output -> processor 1 input (that input then has two drivers requested:
-				// Add_bond keeps the last one; fine for the structural comparison)
-				nm := fmt.Sprintf("lnk%d", link)
-				ios = append(ios, gio{nm, cpNames[0], "output", o}, gio{nm, cpNames[1], "input", link})
-				link++
+			if r.Chance(1, 5) {
 				continue
 			}
-			if r.Chance(1, 6) {
-				continue
-			}
-			nm := fmt.Sprintf("out%d_%d", c, o)
-			ios = append(ios, gio{nm, cpNames[c], "output", o}, gio{nm, "bm", "output", ext["output"]})
+			pair(fmt.Sprintf("out%d_%d", c, o), gio{cp: cpNames[c], typ: "output", index: o}, gio{cp: "bm", typ: "output", index: ext["output"]})
 			ext["output"]++
 		}
 	}
